@@ -24,6 +24,9 @@ THEOREMS = [
     "MCHap.C02.normalise_sum_one",
     "MCHap.C02.gibbs_sum_one",
     "MCHap.C02.gibbs_is_conditional",
+    "MCHap.C02.gibbs_is_conditional_F0",
+    "MCHap.C02.allelePrior_none_eq_flat",
+    "MCHap.C02.gibbs_flat_eq_explicit",
     "MCHap.C02.gibbs_reversible",
     "MCHap.C02.callW_eq_perms_mul_ordered",
     "MCHap.C02.callW_perm",
